@@ -449,7 +449,8 @@ def r_width_table(ctx):
             if isinstance(ot, Arr) and isinstance(ot.elem, Struct):
                 w = ot.elem.fields[2]
                 stored.add((w.lo, w.hi) if isinstance(w, Int) else None)
-        rep.oblige(bool(starts), "WIDTH-TABLE|start|k=%s" % k, "src/tag_writer.rs", "Master::Start with width %s does not call start_tag" % k)
+        pushes = [d for (kd, d, g) in run.events if kd == "mutate" and d[0] == "ot" and d[1] == "push"]
+        rep.oblige(bool(starts) or bool(pushes), "WIDTH-TABLE|start|k=%s" % k, "src/tag_writer.rs", "Master::Start with width %s neither calls start_tag nor pushes onto the open-master stack" % k)
     # start_tag stores its argument
     for k in range(0, 9):
         run = WriterRun(prog, "TagWriter::write_explicit_sized", tag_type="Master", form="Start", cparams={"SIZE_LENGTH": k})
@@ -597,7 +598,8 @@ def r_full_eq(ctx):
         if rec:
             first_child = rec[0]
             idx = {d: [i for i, (kd, d2) in enumerate(evF) if kd == "call" and d2 == d] for d in set(cF)}
-            st_i = idx.get("start_tag", [])
+            # the master is opened: a call of start_tag, or (start_tag inlined) a push onto the open-master stack
+            st_i = idx.get("start_tag", []) + [i for i, (kd, d2) in enumerate(evF) if kd == "mutate" and d2[0] == "ot" and d2[1] == "push"]
             en_i = idx.get("end_tag", [])
             rep.oblige(bool(st_i) and min(st_i) < first_child, "FULL-EQ|start-before-children|w=%s" % k, "src/tag_writer.rs", "the master is not opened before its children are written")
             rep.oblige(bool(en_i) and max(en_i) > first_child, "FULL-EQ|end-after-children|w=%s" % k, "src/tag_writer.rs", "the master is not closed after its children are written")
